@@ -394,6 +394,30 @@ def machine_violation(machine, v):
 # Parent side
 
 
+def configure_process(shard):
+    """How the process around the library is configured is not the library's business: every third
+    shard runs with the "rv" loggers at DEBUG and a handler that formats every record (what an
+    application does while debugging), the others with logging switched off.  Returns a description."""
+    import logging
+
+    lg = logging.getLogger("rv")
+    if shard % 3 == 1:
+        class H(logging.Handler):
+            n = 0
+
+            def emit(self, record):
+                H.n += 1
+                record.getMessage()
+
+        logging.disable(logging.NOTSET)
+        lg.handlers[:] = [H(level=logging.DEBUG)]
+        lg.setLevel(logging.DEBUG)
+        lg.propagate = False
+        return "rv loggers at DEBUG with a formatting handler"
+    logging.disable(logging.CRITICAL)
+    return "logging disabled"
+
+
 def _worker(args):
     (modname, prop, tier, seed, shard, nshards, known_keys, desc) = args
     import importlib
@@ -404,6 +428,7 @@ def _worker(args):
     try:
         mod = importlib.import_module(modname)
         reset_globals()
+        ctx.extra["process_config"] = {configure_process(shard): 1}
         owner = importlib.import_module("checks." + prop.lower())
         if getattr(owner, "NOISE", True):
             # observations a check wants from a process in which nothing has happened yet
